@@ -51,6 +51,7 @@ def leavesVal : AnyValue → List (List Seg × Leaf)
   | .kvl kvs => leavesKvs kvs
   | .bytes _ => []
   | .unset => []
+  | .nilp => []
 def leavesArr (i : Nat) : List AnyValue → List (List Seg × Leaf)
   | [] => []
   | v :: vs => (leavesVal v).map (fun pl => (Seg.idx i :: pl.1, pl.2)) ++ leavesArr (i + 1) vs
@@ -91,6 +92,7 @@ theorem flattenVal_leaves (key : Str) : ∀ v : AnyValue,
   | .dbl bits => by simp [flattenVal, leavesVal, dotted, Leaf.text]
   | .bytes _ => by simp [flattenVal, leavesVal]
   | .unset => by simp [flattenVal, leavesVal]
+  | .nilp => by simp [flattenVal, leavesVal]
   | .arr vs => by
     simp only [flattenVal, leavesVal]
     rw [flattenArr_leaves (key ++ [46]) 0 vs]
